@@ -690,6 +690,19 @@ def floorflush(ctx: Any) -> List[Ob]:
             ocs, unds = traces(ctx, sel_f, {p_t: 1, p_c: 1, '.type': 1 if same_t else 28, '.class_': 1 if same_c else 255, '.get()': {'r': 'r'}}, eff_sel, loop_bound=1, for_iter=lambda n, e: True)
             took = {('TAKE' in t) for t in ocs}
             obs.append(ob(R, sel_f, f'cached record: type {"equal" if same_t else "different"}, class {"equal" if same_c else "different"}', f'it is {"selected" if same_t and same_c else "not selected"} for the flush', took == {same_t and same_c} and not unds, f'selected on {took}; undecided {unds}'))
+    # the selector looks the name up under the SAME folding the records were stored under (the lower-cased key): the key
+    # obligations of C05.KEYS for the cache methods the flush reaches
+    from .c05 import cache_methods_reached, keys as _c05_keys
+
+    reached = cache_methods_reached(ctx, [g])
+    for o in _c05_keys.fn(ctx):
+        if str(o.function) in reached or str(o.function) == g.qual:
+            o.rule = R
+            obs.append(o)
+    # `cached with ... the received TTL`: nothing between the wire and the record rewrites the TTL, the class or the type
+    from .c01 import frame_locals_obligations
+
+    obs.extend(frame_locals_obligations(ctx, R))
     return obs
 
 
